@@ -100,6 +100,8 @@ class ParallelTemperedChain(BaseChain):
         self.swap_interval = swap_interval
         self._temperature_acceptance = None
         self._temperature_swaps = None
+        # every chain adapts its own ladder: do not share the annealer's state
+        adaptive_annealer = copy.deepcopy(adaptive_annealer)
         self.adaptive_annealer = adaptive_annealer
         if adaptive_annealer is not None:
             # note that pass by reference is required here if setting
